@@ -216,11 +216,11 @@ func c08Intern(c *Ctx, p *Prog) {
 	// (b) the row is the trimmed one: a phi of the trimming loop, derived from Projection.row
 	trimmed := false
 	if phi, ok := hashed.(*ssa.Phi); ok {
-		for _, e := range phi.Edges {
-			if sl, ok := e.(*ssa.Slice); ok && sl.X == phi {
-				trimmed = true
-			}
-		}
+		trimmed = c08ResliceTrim(fn, phi)
+	}
+	// or one reslice after counting down: n := len(buf); for n > 0 && buf[n-1] == "" { n-- }; row := buf[:n]
+	if sl, ok := hashed.(*ssa.Slice); ok && sl.Low == nil && sl.High != nil && sl.Max == nil {
+		trimmed = c08CountDownTrim(fn, sl)
 	}
 	// a captured row variable: trimmed in place by row = row[:len(row)-1]
 	if al, ok := hashed.(*ssa.Alloc); ok {
@@ -1089,4 +1089,177 @@ func storesEquals(fn *ssa.Function, d int) bool {
 		}
 	})
 	return found
+}
+
+// c08CountDownTrim: sl is buf[:n] with n the counter of a loop that starts at len(buf), steps down by one, and goes on
+// exactly while n > 0 and buf[n-1] == "" — so buf[:n] is buf without its trailing empty values. buf is one and the
+// same slice throughout: a value, or loads of one field of the receiver with no store or call in between (the loop).
+func c08CountDownTrim(fn *ssa.Function, sl *ssa.Slice) bool {
+	nphi, ok := sl.High.(*ssa.Phi)
+	if !ok || len(nphi.Edges) != 2 {
+		return false
+	}
+	sameBuf := func(a, b ssa.Value) bool {
+		if a == b {
+			return true
+		}
+		fa, ba := loadOfField(a)
+		fb, bb := loadOfField(b)
+		return fa != nil && fa == fb && ba == bb && len(fn.Params) > 0 && ba == ssa.Value(fn.Params[0])
+	}
+	var lp *loopInfo
+	for _, l := range naturalLoops(fn) {
+		if l.Header == nphi.Block() {
+			lp = l
+		}
+	}
+	if lp == nil {
+		return false
+	}
+	// edges: len(buf) from outside, n-1 from inside
+	initOK, stepOK := false, false
+	for i, e := range nphi.Edges {
+		if lp.Blocks[lp.Header.Preds[i]] {
+			if bo, ok := e.(*ssa.BinOp); ok && bo.Op == token.SUB && bo.X == ssa.Value(nphi) {
+				if k, ok := constInt(bo.Y); ok && k == 1 {
+					stepOK = true
+				}
+			}
+		} else if call, ok := e.(*ssa.Call); ok {
+			if bi, ok := call.Call.Value.(*ssa.Builtin); ok && bi.Name() == "len" && sameBuf(call.Call.Args[0], sl.X) {
+				initOK = true
+			}
+		}
+	}
+	return initOK && stepOK && c08TrimExits(lp, func(v ssa.Value) bool { return v == ssa.Value(nphi) }, func(v ssa.Value) bool { return sameBuf(v, sl.X) })
+}
+
+// c08ResliceTrim: row is the phi of a loop that starts with the buffer and reslices row = row[:len(row)-1], going on
+// exactly while len(row) > 0 and row[len(row)-1] == "".
+func c08ResliceTrim(fn *ssa.Function, row *ssa.Phi) bool {
+	var lp *loopInfo
+	for _, l := range naturalLoops(fn) {
+		if l.Header == row.Block() {
+			lp = l
+		}
+	}
+	if lp == nil || len(row.Edges) != 2 {
+		return false
+	}
+	isLen := func(v ssa.Value) bool {
+		call, ok := v.(*ssa.Call)
+		if !ok {
+			return false
+		}
+		bi, ok := call.Call.Value.(*ssa.Builtin)
+		return ok && bi.Name() == "len" && call.Call.Args[0] == ssa.Value(row)
+	}
+	stepOK := false
+	for i, e := range row.Edges {
+		if !lp.Blocks[lp.Header.Preds[i]] {
+			continue
+		}
+		if sl, ok := e.(*ssa.Slice); ok && sl.X == ssa.Value(row) && sl.Low == nil && sl.Max == nil {
+			if bo, ok := sl.High.(*ssa.BinOp); ok && bo.Op == token.SUB && isLen(bo.X) {
+				if k, ok := constInt(bo.Y); ok && k == 1 {
+					stepOK = true
+				}
+			}
+		}
+	}
+	return stepOK && c08TrimExits(lp, isLen, func(v ssa.Value) bool { return v == ssa.Value(row) })
+}
+
+// c08TrimExits: the loop has no effects and exactly two exits: it leaves when the length quantity q is 0 (stays for 1
+// and more), and when buf[q-1] is not the empty string.
+func c08TrimExits(lp *loopInfo, isQ, isBuf func(ssa.Value) bool) bool {
+	for b := range lp.Blocks {
+		for _, in := range b.Instrs {
+			switch x := in.(type) {
+			case *ssa.Store, *ssa.MapUpdate, *ssa.Go, *ssa.Defer:
+				return false
+			case *ssa.Call:
+				if bi, ok := x.Call.Value.(*ssa.Builtin); !ok || bi.Name() != "len" {
+					return false
+				}
+			}
+		}
+	}
+	nExits, good := 0, true
+	for b := range lp.Blocks {
+		ifi, ok := b.Instrs[len(b.Instrs)-1].(*ssa.If)
+		if !ok {
+			continue
+		}
+		stayT, stayF := lp.Blocks[b.Succs[0]], lp.Blocks[b.Succs[1]]
+		if stayT && stayF {
+			continue
+		}
+		nExits++
+		bo, ok := ifi.Cond.(*ssa.BinOp)
+		if !ok {
+			good = false
+			continue
+		}
+		switch {
+		case isQ(bo.X) || isQ(bo.Y):
+			k, isK := constInt(bo.Y)
+			onLeft := false
+			if isQ(bo.Y) {
+				k, isK = constInt(bo.X)
+				onLeft = true
+			}
+			stays := func(n int64) bool {
+				a, c := n, k
+				if onLeft {
+					a, c = k, n
+				}
+				var t bool
+				switch bo.Op {
+				case token.GTR:
+					t = a > c
+				case token.GEQ:
+					t = a >= c
+				case token.LSS:
+					t = a < c
+				case token.LEQ:
+					t = a <= c
+				case token.NEQ:
+					t = a != c
+				case token.EQL:
+					t = a == c
+				}
+				return t == stayT
+			}
+			if !isK || stays(0) || !stays(1) || !stays(5) {
+				good = false
+			}
+		default:
+			var elem, empty ssa.Value = bo.X, bo.Y
+			if s, ok := constString(elem); ok && s == "" {
+				elem, empty = bo.Y, bo.X
+			}
+			if s, ok := constString(empty); !ok || s != "" {
+				good = false
+				continue
+			}
+			ia, ok := loadAddr(elem).(*ssa.IndexAddr)
+			if !ok || !isBuf(ia.X) {
+				good = false
+				continue
+			}
+			ix, ok := ia.Index.(*ssa.BinOp)
+			if !ok || ix.Op != token.SUB || !isQ(ix.X) {
+				good = false
+				continue
+			}
+			if k, ok := constInt(ix.Y); !ok || k != 1 {
+				good = false
+			}
+			if !((bo.Op == token.EQL && stayT) || (bo.Op == token.NEQ && stayF)) {
+				good = false
+			}
+		}
+	}
+	return good && nExits == 2
 }
